@@ -46,10 +46,15 @@ theorem finished_only_after_left_needs_clear :
 
 /-! ### undeploy -/
 
-/-- **undeploy cancels exactly the jobs still queued** (for the repaired `undeploy`, `passInner = false`): the ids
-    handed to `scancel` are exactly those of the runs still waiting — they include every job still queued, none
-    whose `run` already returned — and once undeploy has returned none of them is in the queue. -/
-theorem undeploy_cancels_exactly_queued_partial {cfg : Cfg} (hc : cfg.clearsCache = true)
+/-- the source keeps the *outer* location in `undeploy`'s `loc_map` (repaired in 8bb14ab), so `_remove_jobs` → `run`
+    unwraps it exactly once -/
+theorem gen_undeploy_keeps_outer_location : Gen.queueCfg.passInner = false := rfl
+
+/-- **undeploy cancels exactly the jobs still queued**: the ids handed to `scancel` are exactly those of the runs
+    still waiting — they include every job still queued, none whose `run` already returned — and once undeploy has
+    returned none of them is in the queue. (`hp`: `undeploy` hands `_remove_jobs` a location that can be unwrapped —
+    true of the source, see `gen_undeploy_keeps_outer_location` and the instance `…_gen` below.) -/
+theorem undeploy_cancels_exactly_queued {cfg : Cfg} (hc : cfg.clearsCache = true)
     (hp : cfg.passInner = false) {res s} (h : Reachable cfg res s) :
     (∀ s', s.upc = .idle → step cfg s .undeployStart = some s' →
         ∃ js, (s'.upc = .cancelling js ∨ (js = [] ∧ s'.upc = .finished [])) ∧
@@ -81,8 +86,17 @@ theorem undeploy_cancels_exactly_queued_partial {cfg : Cfg} (hc : cfg.clearsCach
     cases hs
     exact ⟨s.scheduled, Or.inl rfl, hw, fun j hj => (hw j).mpr (hqw j hj), fun j hj => hnf j ((hw j).mp hj)⟩
 
-/-- **the code as it is**: with a job still scheduled, `undeploy` raises before any `scancel` is issued
-    (`loc_map` keeps the inner location and `_remove_jobs` → `run` unwraps it a second time) and the queue is untouched -/
+/-- the statement for the configuration read from the source -/
+theorem undeploy_cancels_exactly_queued_gen {res s} (h : Reachable Gen.queueCfg res s) :
+    (∀ s', s.upc = .idle → step Gen.queueCfg s .undeployStart = some s' →
+        ∃ js, (s'.upc = .cancelling js ∨ (js = [] ∧ s'.upc = .finished [])) ∧
+          (∀ j, j ∈ js ↔ (s.pc j).waiting = true) ∧ (∀ j, j ∈ s.queue → j ∈ js) ∧
+          (∀ j, j ∈ js → (s.pc j).finished = false)) ∧
+    (∀ js, s.upc = .finished js → ∀ j, j ∈ js → j ∉ s.queue) :=
+  undeploy_cancels_exactly_queued gen_clears_cache_after_registration gen_undeploy_keeps_outer_location h
+
+/-- **regression guard** (the code before 8bb14ab): had `loc_map` kept the inner location, `_remove_jobs` → `run` would
+    unwrap it a second time: with a job still scheduled `undeploy` raises before any `scancel` and the queue is untouched -/
 theorem undeploy_raises_when_jobs_scheduled {cfg : Cfg} (hp : cfg.passInner = true) (s s' : St)
     (hidle : s.upc = .idle) (hne : s.scheduled ≠ []) (hs : step cfg s .undeployStart = some s') :
     s'.upc = .raised ∧ s'.queue = s.queue ∧ ∀ a s'', a = .scancel ∨ a = .undeployEnd → step cfg s' a ≠ some s'' := by
@@ -92,9 +106,9 @@ theorem undeploy_raises_when_jobs_scheduled {cfg : Cfg} (hp : cfg.passInner = tr
   intro a s'' ha
   rcases ha with rfl | rfl <;> simp [step]
 
-/-- the full-strength clause "undeploying cancels the jobs still queued" is FALSE of the code as it is:
+/-- … so that with the old statement order the clause "undeploying cancels the jobs still queued" was false:
     one submitted job, undeploy: the job stays in the queue and no cancellation can follow -/
-theorem undeploy_cancels_queued_false :
+theorem undeploy_cancels_queued_false_before_fix :
     ∃ s, Reachable ⟨true, true⟩ (fun j => (j, 0)) s ∧ s.upc = .raised ∧ 1 ∈ s.queue ∧ 1 ∈ s.scheduled := by
   refine ⟨_, reachable_runActs Reachable.init [.submit 1, .clear 1, .undeployStart] rfl, ?_, ?_, ?_⟩ <;> decide
 
